@@ -118,7 +118,7 @@ def random_layout(rng, force=None):
 # ----------------------------------------------------------------------------- random OD models
 from canmon.ref.od_model import ObjM, OdM, VarM  # noqa: E402
 
-ACCESS = ("rw", "ro", "wo", "const")
+ACCESS = ("rw", "ro", "wo", "const", "rw", "ro", "rwr", "rww")     # rwr / rww: read-write on process input / output (CiA 306)
 NAME_WORDS = ("Speed", "Position", "Torque", "Mode", "Status", "Control", "Limit", "Gain", "Temp", "Voltage",
               "Current", "Offset", "Scale", "Count", "Flag", "Config", "Serial", "Name", "Blob", "Time")
 
